@@ -17,6 +17,16 @@ class _:
                "load_metadata_for_topics": dict(ret="Deferred?", trace="LoadMetadata")}
 
 
+@klass("ext.PartitionConsumer")
+class _:
+    external = True
+    # a partition Consumer as the group sees it: running as long as _start_d is set (a fired _start_d does not mean stopped)
+    fields = {"_start_d": "Optional[Ref_Deferred]"}
+    methods = {"stop": dict(trace="StopConsumer", reentrant=True, raises=["RestopError"]),
+               "shutdown": dict(ret="Deferred?", trace="ShutdownConsumer", reentrant=True, raises=["RestopError"]),
+               "start": dict(ret="Deferred?", trace="StartConsumer", reentrant=True)}
+
+
 @klass("ext.GroupProtocol")
 class _:
     external = True
@@ -35,13 +45,14 @@ class _:
               "_heartbeat_looper": ("Ref_LoopingCall", False), "_heartbeat_looper_d": "Optional[Ref_Deferred]",
               "_heartbeat_request_d": "Optional[Ref_Deferred]",
               "session_timeout_ms": ("int", False), "protocol": ("Ref_GroupProtocol", False), "topics": ("Any", False),
-              "leader_id": "Any"}
+              "leader_id": "Any", "consumers": "Dict[str, List[Ref_PartitionConsumer]]"}
     invariant = {
         # C17: a scheduled rejoin is represented by a PENDING timer (a fired one kept here would block every later rejoin)
         "rejoin-wait-live": "self._rejoin_wait_dc is None or active(self._rejoin_wait_dc)",
         "backoffs": "self.retry_backoff_ms >= 0 and self.fatal_backoff_ms >= 0 and self.initial_backoff_ms >= 0",
     }
     rely = {"stopping-is-final": "implies(old(self._stopping), self._stopping)"}
+    subclass_methods = ["ConsumerGroup"]
 
 
 SELF = "self: Ref_Coordinator"
@@ -58,7 +69,24 @@ method("on_group_leave", "(%s) -> None" % SELF, modifies=ALL, inline_only=True,
        notes="ConsumerGroup overrides this to stop its partition consumers (C16); represented by its contract")
 method("on_join_prepare", "(%s) -> Any" % SELF, modifies=ALL, inline_only=True)
 method("stop", "(%s, errback_result: Optional[Ref_Failure] = None) -> Any" % SELF, modifies=ALL, inline_only=True)
-method("_join_and_sync", "(%s) -> Ref_Deferred" % SELF, modifies=ALL, inline_only=True)
+method("_join_and_sync", "(%s) -> Ref_Deferred" % SELF, modifies=ALL, props=["C16", "C17"],
+       locals={"coordinator_broker": "Optional[BrokerMetadata]", "join_response": "Optional[_JoinGroupResponse]",
+               "sync_response": "Optional[_SyncGroupResponse]", "assignments": "Any", "topic_partitions": "Any", "assignment": "Any"},
+       raises={"Exception": "True"},
+       checkpoints={
+           # C16: after stop no group request other than the leave is issued - every request of the join sequence is
+           # preceded by a fresh look at the stopping flag (the sequence is suspended, and stop() may run, at every yield)
+           "call:send_join_group_request#1": {"not-after-stop[C16]": "not self._stopping"},
+           "call:send_sync_group_request#1": {"not-after-stop[C16]": "not self._stopping"},
+           # C17: the member is marked joined BEFORE its consumers are started, so that an error one of them reports while
+           # they are being started (which asks for a rejoin) is not overwritten afterwards
+           "call:on_join_complete#1": {"joined-before-consumers-start[C17]": "not self._rejoin_needed and self._state == '[joined]'",
+                                       # C16: no consumer is started for a member that is being stopped
+                                       "no-consumers-after-stop[C16]": "not self._stopping"}})
+method("get_coordinator_broker", "(%s) -> Ref_Deferred" % SELF, modifies=ALL, inline_only=True)
+method("send_sync_group_request", "(%s, group_assignment: Any) -> Ref_Deferred" % SELF, modifies=ALL, inline_only=True)
+method("reset_heartbeat_timer", "(%s) -> None" % SELF, modifies=ALL, inline_at_calls=True)
+method("on_join_complete", "(%s, assignments: Any) -> Any" % SELF, modifies=ALL, inline_only=True)
 method("send_heartbeat_request", "(%s) -> Ref_Deferred" % SELF, modifies=["Deferred.*"], inline_only=True, no_guarantee=True,
        establishes_invariant=False)
 
@@ -124,3 +152,40 @@ contract(G + "send_join_group_request.<_join_group_success>")(type('_', (), dict
 method("send_join_group_request", "(%s) -> Ref_Deferred" % SELF, props=["C11", "C16"],
        checkpoints={"call:addCallbacks#1": {
            "join-allowed-the-stated-minimum[C11]": "n_events('GroupRequest') == 1 and event_arg('GroupRequest', 0, 4) == 35.0"}})
+
+
+# ---- ConsumerGroup overrides (C16) -----------------------------------------------------------------------------------
+# A ConsumerGroup IS a Coordinator: its objects live in the Coordinator heap class (extra field `consumers`), and methods
+# that only the subclass defines are found through `subclass_methods` (the klass declaration above).
+CG = "afkak._group.ConsumerGroup."
+
+
+def cg_method(name, sig, **kw):
+    d = dict(sig=sig, props=kw.pop('props', ["C16"]), method=True, entry_point=True)
+    d.update(kw)
+    contract(CG + name)(type('_', (), d))
+
+
+cg_method("shutdown_consumers", "(%s) -> Ref_Deferred" % SELF, modifies=ALL, inline_only=True,
+          notes="graceful shutdown of every partition consumer (nested loops over a dict of lists with try/except around "
+                "foreign calls): represented by its contract, exercised by the bounded group scenario")
+cg_method("on_join_prepare", "(%s) -> Optional[Ref_Deferred]" % SELF,
+          # C16: the join sequence WAITS for the previous generation's consumers: what it yields on is their shutdown
+          ensures={"hands-back-the-shutdown-to-wait-for[C16]": "result is not None and n_calls('shutdown_consumers') == 1"})
+
+cg_method("stop", "(%s, errback_result: Optional[Ref_Failure] = None) -> Ref_Deferred" % SELF,
+          raises={"RestopError": "iff:self._start_d is None or self._stopping", "Exception": "True"},
+          checkpoints={"call:shutdown_consumers#1": {
+              # C16: from the moment stop() is called nothing may (re)join: the member counts as stopping and a scheduled
+              # rejoin is called off BEFORE the (possibly long) wait for the consumers begins
+              "stopping-before-the-wait[C16]": "self._stopping and self._rejoin_wait_dc is None"}})
+
+cg_method("stop_consumers", "(%s) -> None" % SELF,
+          locals={"current_consumers": "Dict[str, List[Ref_PartitionConsumer]]"},
+          raises={"Exception": "True"},
+          loops={"for#1": dict(index="ti", inv=["True"]),
+                 "for#1/for#1": dict(index="ci", inv=["True"], ghosts={"old_running": "consumer._start_d is not None"})},
+          checkpoints={"iteration-end:for#1/for#1": {
+              # C16, eviction: EVERY partition consumer that is still running is stopped - one whose start() Deferred has
+              # already reported an error keeps fetching and committing until stop() is called on it
+              "every-running-consumer-is-stopped[C16]": "n_events('StopConsumer') == ite(old_running, 1, 0)"}})
